@@ -174,8 +174,33 @@ func (p *Program) FuncKey(fn *ssa.Function) string {
 	return pk + "." + fn.Name()
 }
 
-// Func resolves "rel/pkg/path.Func" or "rel/pkg/path.(T).M"; nil if absent.
+// Func resolves "rel/pkg/path.Func", "rel/pkg/path.(T).M" or "var:rel/pkg/path.name" (the function literal a package
+// variable is initialised with); nil if absent.
 func (p *Program) Func(key string) *ssa.Function {
+	if strings.HasPrefix(key, "var:") {
+		g := p.Global(strings.TrimPrefix(key, "var:"))
+		if g == nil {
+			return nil
+		}
+		initFn := g.Pkg.Func("init")
+		if initFn == nil {
+			return nil
+		}
+		for _, b := range initFn.Blocks {
+			for _, in := range b.Instrs {
+				if st, ok := in.(*ssa.Store); ok && st.Addr == ssa.Value(g) {
+					switch v := st.Val.(type) {
+					case *ssa.Function:
+						return v
+					case *ssa.MakeClosure:
+						f, _ := v.Fn.(*ssa.Function)
+						return f
+					}
+				}
+			}
+		}
+		return nil
+	}
 	i := strings.LastIndex(key, ".(")
 	if i >= 0 {
 		pkgRel := key[:i]
